@@ -675,6 +675,17 @@ func b01(b bool) string {
 	return "0"
 }
 
+// dec2047 case: the Gallina transliteration of mime.WordDecoder.DecodeHeader against the stdlib
+func runDec(r *hx.Run, id string, v string) {
+	c := hx.Case{ID: id, Kind: "dec2047", Args: []string{hx.Hex([]byte(v))}}
+	d, err := wordDec.DecodeHeader(v)
+	if err != nil {
+		r.Add(c, "err", true)
+		return
+	}
+	r.Add(c, "ok "+hx.Hex([]byte(d)), strings.Contains(v, "=?"))
+}
+
 // fname case: attach a file with this name, render, parse, read the name back
 func runFname(r *hx.Run, id string, name string) {
 	c := hx.Case{ID: id, Kind: "fname", Args: []string{hx.Hex([]byte(name))}}
@@ -852,6 +863,8 @@ func Run(r *hx.Run, replay []hx.Case) {
 				}
 			case "fname":
 				runFname(r, c.ID, string(hx.UnHex(c.Args[0])))
+			case "dec2047":
+				runDec(r, c.ID, string(hx.UnHex(c.Args[0])))
 			case "front": // replayed through its rt case
 			}
 		}
@@ -939,6 +952,38 @@ func Run(r *hx.Run, replay []hx.Case) {
 	}
 	for i := 0; i < nrt && !r.Expired(); i++ {
 		runRT(r, r.NewID(), x.spec())
+	}
+	// RFC 2047 decoding: hand-picked shapes, then Q and B encodings of generated subjects and mutations of them
+	for _, v := range []string{"", "plain", "=?UTF-8?q?a?=", "=?utf-8?Q?a_b=3D?= =?UTF-8?b?Yw==?=", "x =?UTF-8?q?a?= y", "=?UTF-8?q?a?=  =?UTF-8?q?b?=",
+		"=?UTF-8?q?a?= x =?UTF-8?q?b?=", "=?ISO-8859-1?q?caf=E9?=", "=?us-ascii?q?caf=E9?=", "=?koi8-r?q?x?=", "=?UTF-8?x?a?=", "=?UTF-8?q?=zz?= tail",
+		"=?UTF-8?b?!!!?= =?UTF-8?q?ok?=", "=?UTF-8?q", "=?UTF-8?q?", "=?UTF-8?q?a", "=?", "a=?b?c?d?=e", "=?UTF-8?q??=", "=?UTF-8?Q?=e2=82=ac?=", "=?UTF-8?q?a?=\t=?UTF-8?q?b?=",
+		"=?UTF-8?q?a b?=", "=?UTF-8?b?YQ?=", "=?UTF-8?q?=4?="} {
+		runDec(r, r.NewID(), v)
+	}
+	ndec := 1500
+	if r.Tier == "thorough" {
+		ndec = 30000
+	}
+	for i := 0; i < ndec && !r.Expired(); i++ {
+		s := x.words(1+x.n(14), 25)
+		var v string
+		switch x.n(5) {
+		case 0:
+			v = mime.QEncoding.Encode("UTF-8", s)
+		case 1:
+			v = mime.BEncoding.Encode("UTF-8", s)
+		case 2:
+			v = mime.QEncoding.Encode("UTF-8", s) + " " + x.words(2, 0) + " " + mime.BEncoding.Encode("UTF-8", x.words(3, 50))
+		case 3:
+			b := []byte(mime.QEncoding.Encode("UTF-8", s))
+			if len(b) > 0 {
+				b[x.n(len(b))] = byte(32 + x.n(95))
+			}
+			v = string(b)
+		default:
+			v = s
+		}
+		runDec(r, r.NewID(), v)
 	}
 	// file names: every printable ASCII byte in three positions, then generated names
 	for b := 32; b < 127; b++ {
